@@ -41,7 +41,7 @@ SITE_ERRNO = {
     'os.rename': errno.EXDEV, 'os.link': errno.EEXIST, 'os.unlink': errno.EPERM, 'os.close': errno.EIO,
     # the same steps under their other names
     'os.replace': errno.EXDEV, 'os.fchmod': errno.EPERM, 'os.remove': errno.EPERM, 'open': errno.ENOSPC,
-    'os.fdatasync': errno.EIO, 'os.lstat': errno.EACCES,
+    'os.fdatasync': errno.EIO, 'os.lstat': errno.EACCES, 'fcntl.fcntl': errno.EINVAL,
 }
 ALT_ERRNO = {'os.open': errno.EEXIST, 'os.link': errno.EMLINK, 'os.rename': errno.EACCES, 'file.write': errno.EIO,
              'os.stat': errno.EIO, 'os.chmod': errno.EROFS, 'os.replace': errno.EACCES, 'os.fchmod': errno.EROFS,
@@ -145,6 +145,28 @@ class Spy5(Spy):
             if name in ('file.write', 'file.writelines') and len(self.log) > n0 and args:
                 self.log[n0]['data'] = _hexdata(args[0])
 
+    cloexec = False      # also count (and be able to fail) the fcntl calls of set_cloexec()
+
+    def install(self):
+        Spy.install(self)
+        fu = self._installed
+        if self.cloexec and hasattr(fu, 'fcntl'):
+            self._real_fcntl = fu.fcntl
+            fu.fcntl = FcntlProxy(self, fu.fcntl)
+        return self
+
+    def uninstall(self):
+        fu = self._installed
+        if fu is not None and self.__dict__.get('_real_fcntl') is not None:
+            fu.fcntl = self._real_fcntl
+            self._real_fcntl = None
+        Spy.uninstall(self)
+
+    def _event(self, rec):
+        if rec['ok'] and rec['call'].startswith('fcntl.'):
+            return 'n'          # descriptor flags: no effect on the two names
+        return Spy._event(self, rec)
+
     def _counted(self, name, real, args, kwargs, paths, size=None, still=None):
         act = self.plan.get(self.n)
         if isinstance(act, int) and act >= 1000:
@@ -186,6 +208,25 @@ class Spy5(Spy):
             else:
                 out.append('F%d%d%d' % (listed, bool(rec.get('injected')), rec['call'] in UNLINK_CALLS))
         return out
+
+
+class FcntlProxy:
+    """stands in for the module attribute `boltons.fileutils.fcntl`: fcntl.fcntl(fd, ...) becomes a counted call"""
+
+    def __init__(self, spy, real):
+        self.__dict__['_spy'] = spy
+        self.__dict__['_real'] = real
+
+    def __getattr__(self, name):
+        real = getattr(self.__dict__['_real'], name)
+        if name != 'fcntl':
+            return real
+        spy = self.__dict__['_spy']
+
+        def w(*args, **kwargs):
+            fd = args[0] if args else None
+            return spy.counted('fcntl.fcntl', real, args, kwargs, [spy.fdpath.get(fd, ('?fd', False))[0]])
+        return w
 
 
 def _hexdata(x):
@@ -244,13 +285,39 @@ class C05(Property):
                            'in a real scratch directory, and C05.replay of that trace on the abstract FS vs the real destination / part file')
 
     # ------------------------------------------------------------------ translator hook
+    # mutating / process-state calls of the os module that the recorder (fsspy) does NOT interpose, and modules through
+    # which a saver could reach the file system behind its back
+    UNSEEN_OS = {'sendfile', 'copy_file_range', 'splice', 'pwritev', 'posix_fallocate', 'renames', 'makedirs', 'removedirs',
+                 'mkfifo', 'mknod', 'lchmod', 'chflags', 'lchflags', 'setxattr', 'removexattr', 'umask', 'chdir', 'fchdir',
+                 'chroot', 'dup', 'dup2', 'system', 'popen', 'fork', 'startfile'}
+    UNSEEN_MODULES = {'shutil', 'pathlib', 'tempfile', 'subprocess', 'io', 'mmap'}
+    SAVER_SCOPES = {'AtomicSaver', 'atomic_save', 'atomic_rename', 'replace', 'set_cloexec'}
+
     def regen(self):
-        """constants of the current source the model relies on: the default permission bits"""
+        """facts of the current source the proofs / the tie rely on: the default permission bits, and that every call
+        by which the saver can change the file system is one the recorder interposes (so the observed trace is complete)"""
+        import ast
         import boltons.fileutils as fu
+        with open(fu.__file__.replace('.pyc', '.py'), encoding='utf-8') as fh:
+            tree = ast.parse(fh.read())
+        unseen = set()
+        for node in ast.walk(tree):
+            if isinstance(node, (ast.ClassDef, ast.FunctionDef)) and node.name in self.SAVER_SCOPES:
+                for sub in ast.walk(node):
+                    if isinstance(sub, ast.Attribute) and isinstance(sub.value, ast.Name):
+                        if sub.value.id == 'os' and (sub.attr in self.UNSEEN_OS or sub.attr.startswith(('exec', 'spawn'))):
+                            unseen.add('os.' + sub.attr)
+                        elif sub.value.id in self.UNSEEN_MODULES:
+                            unseen.add(sub.value.id + '.' + sub.attr)
+                    elif isinstance(sub, ast.Name) and sub.id in self.UNSEEN_MODULES:
+                        unseen.add(sub.id)
         src = ('/- generated by harness/bv/props/c05.py regen() from boltons/fileutils.py - do not edit -/\n'
                'namespace C05.Gen\n'
                'def rwPerms : Nat := %d\ndef defaultFilePerms : Nat := %d\n'
-               'end C05.Gen\n') % (int(fu.RW_PERMS), int(fu.AtomicSaver._default_file_perms))
+               '/-- calls inside AtomicSaver / atomic_save / atomic_rename / replace / set_cloexec that the recorder cannot see -/\n'
+               'def unseenCalls : List String := [%s]\n'
+               'end C05.Gen\n') % (int(fu.RW_PERMS), int(fu.AtomicSaver._default_file_perms),
+                                   ', '.join('"%s"' % n for n in sorted(unseen)))
         return {'C05_Consts.lean': src}
 
     # ------------------------------------------------------------------ generation
@@ -378,6 +445,13 @@ class C05(Property):
                               (0o666, None, 0o022), (0o666, 0o600, 0o077), (None, 0o666, 0o022), (None, 0o666, 0o077), (0o777, None, 0o027)):
             for c in self.with_plans(mk(perms=perms, dm=dm, umask=um), appear=False):
                 yield c
+        # 9. the descriptor-flag calls of set_cloexec() (fcntl.fcntl F_GETFD / F_SETFD) as fault sites of their own: the
+        #    code treats them as best effort, but whatever escapes from them must go through the cleanup
+        for ow, dm, perms, rm in ((1, 0o644, None, 1), (0, None, 0o600, 1), (1, None, None, 0)):
+            for raises in (0, 1):
+                for c in self.with_plans(mk(ow=ow, dm=dm, perms=perms, rm=rm, raises=raises, cloexec=1), appear=False,
+                                         codes=(1001, 1002), pairs=(ow == 1 and rm == 1 and not raises)):
+                    yield c
         # 8. a write larger than any buffer
         big = (bytes(range(48, 112)) * 400).hex()
         for c in self.with_plans(mk(dm=0o644, writes=('4e45', big)), appear=False):
@@ -458,6 +532,8 @@ class C05(Property):
                 c['buf'] = rng.choice([0, 1, 2, 5, 4096]) if c['txt'] else rng.choice([0, 2, 5, 4096])
             if rng.random() < 0.25:
                 c['reuse'] = 2 if (c['rm'] and c['part'] is None and rng.random() < 0.5) else 1
+            if rng.random() < 0.15:
+                c['cloexec'] = 1
             yield c
 
     # ------------------------------------------------------------------ model line: the OBSERVED trace
@@ -491,7 +567,8 @@ class C05(Property):
         toks = [op[1:] if op[0] == 'w' else op.upper() for op in ops]
         ref = ' '.join(['REF'] + self._head(case) + [','.join(toks) or '-',
                                                     ','.join('%d:%s' % (kk, a) for kk, a in case['plan']) or '-'])
-        self.__dict__.setdefault('_ref_pending', []).append((ref, self.render_ref(obs)))
+        if not case.get('cloexec'):      # (the transliteration does not count the fcntl calls)
+            self.__dict__.setdefault('_ref_pending', []).append((ref, self.render_ref(obs)))
         o1, o2 = obs['first'], obs['retry']
         return ' '.join(self._head(case) + [
             new_hex(case),
@@ -574,9 +651,10 @@ class C05(Property):
                 obs['first'] = self.one_save(fu, d, dest, kw, ops, case['raises'], plan, case['txt'], rel=DEST, chdir_to=d2)
                 os.chdir(old_cwd)
             else:
-                obs['first'] = self.one_save(fu, d, dest, kw, ops, case['raises'], plan, case['txt'], holder=holder)
+                obs['first'] = self.one_save(fu, d, dest, kw, ops, case['raises'], plan, case['txt'], holder=holder,
+                                              cloexec=case.get('cloexec'))
             obs['retry'] = self.one_save(fu, d, dest, kw, ['w' + op[1:] for op in ops if op[0] == 'w'], 0, {}, case['txt'],
-                                         holder=holder)
+                                         holder=holder, cloexec=case.get('cloexec'))
         except CaseTimeout:
             obs.setdefault('first', {'out': 'exc:CaseTimeout', 'calls': 0, 'dest': None, 'part': None, 'extra': [], 'log': []})
             obs.setdefault('retry', {'out': 'exc:CaseTimeout', 'calls': 0, 'dest': None, 'part': None, 'extra': [], 'log': []})
@@ -584,6 +662,8 @@ class C05(Property):
             fu.os = os
             if 'open' in fu.__dict__:
                 del fu.__dict__['open']
+            if isinstance(fu.__dict__.get('fcntl'), FcntlProxy):
+                fu.fcntl = fu.fcntl.__dict__['_real']
             os.umask(old_umask)
             os.chdir(old_cwd)
             rm_scratch(d)
@@ -591,9 +671,10 @@ class C05(Property):
                 rm_scratch(d2)
         return obs
 
-    def one_save(self, fu, d, dest, kw, ops, raises, plan, txt, rel=None, chdir_to=None, holder=None):
+    def one_save(self, fu, d, dest, kw, ops, raises, plan, txt, rel=None, chdir_to=None, holder=None, cloexec=False):
         partname = kw.get('part_file') or PART
         spy = Spy5(dest, plan=plan)
+        spy.cloexec = bool(cloexec)
         spy.part_path = os.path.join(d, partname)     # the name the part file must have (roles of failed / early calls)
         out = 'ok'
         mk = BODY_EXC.get(raises)
@@ -718,7 +799,7 @@ class C05(Property):
         st['out:' + o['out'].split(':')[0]] = st.get('out:' + o['out'].split(':')[0], 0) + 1
         for _, name in o.get('faults', []):
             st['fault@' + name] = st.get('fault@' + name, 0) + 1
-        for k in ('ops', 'buf', 'reuse'):
+        for k in ('ops', 'buf', 'reuse', 'cloexec'):
             if case.get(k):
                 st['with:' + k] = st.get('with:' + k, 0) + 1
         if case['raises']:
@@ -851,7 +932,7 @@ class C05(Property):
             yield dict(case, owp=0)
         if case['perms'] is not None:
             yield dict(case, perms=None)
-        for k in ('chdir', 'pf', 'buf', 'reuse'):
+        for k in ('chdir', 'pf', 'buf', 'reuse', 'cloexec'):
             if case.get(k) is not None:
                 yield {kk: v for kk, v in case.items() if kk != k}
 
